@@ -2,6 +2,11 @@
 
 package golang
 
+import (
+	"github.com/Workiva/frugal/compiler/generator"
+	"github.com/Workiva/frugal/compiler/parser"
+)
+
 // Re-exports for the verification harness (/verif/harness/cc). No logic.
 
 func VerifSnakeToCamel(s string) string { return snakeToCamel(s) }
@@ -13,3 +18,9 @@ func VerifTitleServiceName(name, serviceName string) string {
 }
 
 func VerifIncludeNameToReference(s string) string { return includeNameToReference(s) }
+
+// VerifGenerateConstantValue re-exports (*Generator).generateConstantValue; g must have been
+// made by NewGenerator and given its Frugal with SetFrugal.
+func VerifGenerateConstantValue(g generator.LanguageGenerator, t *parser.Type, value interface{}) string {
+	return g.(*Generator).generateConstantValue(t, value)
+}
